@@ -236,3 +236,364 @@ Theorem C05_spec_demands : forall sc o, spec sc o = true ->
   ob_end_total o = 0 /\ ob_end_rep o = 0 /\ (sc_wrap sc = false -> ob_end_leak o = 0) /\ ob_end_leak o <= moved (sc_ops sc) (ob_ops o).
 Proof. exact spec_demands. Qed.
 Print Assumptions C05_spec_demands.
+
+(* --------------------------------------------------------------------------------------------------------------
+   SOURCE TIE (C wrappers): cpputest_calloc_location / cpputest_strdup_location / cpputest_strndup_location of src/CppUTest/TestHarness_c.cpp as translated on every run into gen/Gen_LoopC15.v -- the overflow test of calloc is the model's, a refused product asks nothing of the allocator, strdup / strndup copy exactly the string; the link_ lemmas state that C05_Model's calloc_mem / strlen / strdup bytes are the translated functions' results
+   -------------------------------------------------------------------------------------------------------------- *)
+From CppUVerif Require gen.Gen_LoopC15 C15_CTie.
+Local Open Scope Z_scope.
+Theorem C05_link_C05_calloc_guard :
+  forall num size : N,
+  negb (size =? 0) && ((W - 1) / size <? num) =
+  C15_CTie.t_calloc_overflows (BinInt.Z.of_N num) (BinInt.Z.of_N size).
+Proof. exact C15_CTie.link_C05_calloc_guard. Qed.
+Print Assumptions C05_link_C05_calloc_guard.
+
+Theorem C05_link_C05_calloc_refuses :
+  forall (c : cfg) (f : list N) (s : st) (idx num size : N),
+  C15_CTie.t_calloc_overflows (BinInt.Z.of_N num) (BinInt.Z.of_N size) = true ->
+  calloc_mem fixed c f s idx num size = (ANull, s, []).
+Proof. exact C15_CTie.link_C05_calloc_refuses. Qed.
+Print Assumptions C05_link_C05_calloc_refuses.
+
+Theorem C05_link_C05_calloc_asks :
+  forall (c : cfg) (f : list N) (s : st) (idx num size : N),
+  C15_CTie.t_calloc_overflows (BinInt.Z.of_N num) (BinInt.Z.of_N size) = false ->
+  calloc_mem fixed c f s idx num size =
+  alloc_mem fixed c f s idx 0 true (wrap (num * size)) (fun _ : unit => repeat 0 (N.to_nat (wrap (num * size)))).
+Proof. exact C15_CTie.link_C05_calloc_asks. Qed.
+Print Assumptions C05_link_C05_calloc_asks.
+
+Theorem C05_link_C05_strlen :
+  forall s r : list N, C15_CTie.NN s -> strlen (s ++ 0 :: r) = N.of_nat (length s).
+Proof. exact C15_CTie.link_C05_strlen. Qed.
+Print Assumptions C05_link_C05_strlen.
+
+Theorem C05_link_C05_strdup_bytes :
+  forall (s r : list N) (k : nat),
+  C15_CTie.NN s ->
+  (k <= length s)%nat -> set_last (firstn (S k) (cut_nul (s ++ 0 :: r) ++ [0])) 0 = firstn k s ++ [0].
+Proof. exact C15_CTie.link_C05_strdup_bytes. Qed.
+Print Assumptions C05_link_C05_strdup_bytes.
+
+Theorem C05_calloc_overflows_iff :
+  forall num size : Z,
+  BinInt.Z.le Z0 num ->
+  BinInt.Z.le Z0 size ->
+  C15_CTie.t_calloc_overflows num size = true <-> BinInt.Z.le C15_CTie.M64 (BinInt.Z.mul num size).
+Proof. exact C15_CTie.calloc_overflows_iff. Qed.
+Print Assumptions C05_calloc_overflows_iff.
+
+Theorem C05_calloc_overflow_refused :
+  forall (fuel : nat) (mem : CMem.memory) (c mc : Z) (evs : list Gen_LoopC15.hcev)
+  (blocks : list (option (list N))) (num size : Z) (file : CMem.ptr) (line : Z),
+  BinInt.Z.le Z0 num ->
+  BinInt.Z.le Z0 size /\ BinInt.Z.lt size C15_CTie.M64 ->
+  BinInt.Z.le C15_CTie.M64 (BinInt.Z.mul num size) ->
+  Gen_LoopC15.src_c_cpputest_calloc_location fuel mem c mc evs blocks num size file line =
+  CMem.FOk (CMem.Null, mem, c, mc, evs, blocks).
+Proof. exact C15_CTie.calloc_overflow_refused. Qed.
+Print Assumptions C05_calloc_overflow_refused.
+
+Theorem C05_calloc_spec :
+  forall (fuel : nat) (mem : CMem.memory) (c mc : Z) (evs : list Gen_LoopC15.hcev) (o : option (list N))
+  (bl : list (option (list N))) (num size : Z) (file : CMem.ptr) (line : Z),
+  BinInt.Z.lt c C15_CTie.I31 ->
+  BinInt.Z.le Z0 num ->
+  BinInt.Z.le Z0 size /\ BinInt.Z.lt size C15_CTie.M64 ->
+  BinInt.Z.lt (BinInt.Z.mul num size) C15_CTie.M64 ->
+  C15_CTie.wf_ans (BinInt.Z.mul num size) o ->
+  Gen_LoopC15.src_c_cpputest_calloc_location fuel mem c mc evs (o :: bl) num size file line =
+  CMem.FOk
+  (C15_CTie.t_ptr mem o,
+  match o with
+  | Some _ => mem ++ [repeat 0 (BinInt.Z.to_nat (BinInt.Z.mul num size))]
+  | None => mem
+  end, C15_CTie.t_tick c, CSem.cw (Zpos 32) true (BinInt.Z.add mc (Zpos 1)),
+  (evs ++ C15_CTie.t_tick_evs c) ++ [Gen_LoopC15.CMalloc (BinInt.Z.mul num size) (C15_CTie.t_ans o)], bl).
+Proof. exact C15_CTie.calloc_spec. Qed.
+Print Assumptions C05_calloc_spec.
+
+Theorem C05_strdup_refused :
+  forall (fuel : nat) (mem : CMem.memory) (c mc : Z) (evs : list Gen_LoopC15.hcev) (bl : list (option (list N)))
+  (p : CMem.ptr) (s r : list N) (file : CMem.ptr) (line : Z),
+  CMemFacts.mem_ok mem ->
+  BinInt.Z.lt c C15_CTie.I31 ->
+  CMem.view mem p = s ++ 0 :: r ->
+  C15_CTie.NN s ->
+  (length s < fuel)%nat ->
+  BinInt.Z.lt (BinInt.Z.of_nat (length (s ++ 0 :: r))) C15_CTie.M64 ->
+  Gen_LoopC15.src_c_cpputest_strdup_location fuel mem c mc evs (None :: bl) p file line =
+  CMem.FOk
+  (CMem.Null, mem, C15_CTie.t_tick c, CSem.cw (Zpos 32) true (BinInt.Z.add mc (Zpos 1)),
+  (evs ++ C15_CTie.t_tick_evs c) ++
+  [Gen_LoopC15.CMalloc (BinInt.Z.add (BinInt.Z.of_nat (length s)) (Zpos 1)) Z0], bl).
+Proof. exact C15_CTie.strdup_refused. Qed.
+Print Assumptions C05_strdup_refused.
+
+Theorem C05_strdup_copies_exactly_the_string :
+  forall (fuel : nat) (mem : CMem.memory) (c mc : Z) (evs : list Gen_LoopC15.hcev) (b3 : list N)
+  (bl : list (option (list N))) (p : CMem.ptr) (s r : list N) (file : CMem.ptr) (line : Z),
+  CMemFacts.mem_ok mem ->
+  BinInt.Z.lt c C15_CTie.I31 ->
+  CMem.view mem p = s ++ 0 :: r ->
+  C15_CTie.NN s ->
+  (length s < fuel)%nat ->
+  BinInt.Z.lt (BinInt.Z.of_nat (length (s ++ 0 :: r))) C15_CTie.M64 ->
+  length b3 = S (length s) ->
+  Gen_LoopC15.src_c_cpputest_strdup_location fuel mem c mc evs (Some b3 :: bl) p file line =
+  CMem.FOk
+  (CMem.Ptr (length mem) Z0, mem ++ [s ++ [0]], C15_CTie.t_tick c,
+  CSem.cw (Zpos 32) true (BinInt.Z.add mc (Zpos 1)),
+  (evs ++ C15_CTie.t_tick_evs c) ++
+  [Gen_LoopC15.CMalloc (BinInt.Z.add (BinInt.Z.of_nat (length s)) (Zpos 1)) (Zpos 1)], bl).
+Proof. exact C15_CTie.strdup_copies_exactly_the_string. Qed.
+Print Assumptions C05_strdup_copies_exactly_the_string.
+
+Theorem C05_strndup_refused :
+  forall (fuel : nat) (mem : CMem.memory) (c mc : Z) (evs : list Gen_LoopC15.hcev) (bl : list (option (list N)))
+  (p : CMem.ptr) (s r : list N) (n : Z) (file : CMem.ptr) (line : Z),
+  CMemFacts.mem_ok mem ->
+  BinInt.Z.lt c C15_CTie.I31 ->
+  CMem.view mem p = s ++ 0 :: r ->
+  C15_CTie.NN s ->
+  (length s < fuel)%nat ->
+  BinInt.Z.lt (BinInt.Z.of_nat (length (s ++ 0 :: r))) C15_CTie.M64 ->
+  BinInt.Z.le Z0 n /\ BinInt.Z.lt n C15_CTie.M64 ->
+  Gen_LoopC15.src_c_cpputest_strndup_location fuel mem c mc evs (None :: bl) p n file line =
+  CMem.FOk
+  (CMem.Null, mem, C15_CTie.t_tick c, CSem.cw (Zpos 32) true (BinInt.Z.add mc (Zpos 1)),
+  (evs ++ C15_CTie.t_tick_evs c) ++
+  [Gen_LoopC15.CMalloc
+  (BinInt.Z.add (BinInt.Z.of_nat (PeanoNat.Nat.min (length s) (BinInt.Z.to_nat n))) (Zpos 1)) Z0], bl).
+Proof. exact C15_CTie.strndup_refused. Qed.
+Print Assumptions C05_strndup_refused.
+
+Theorem C05_strndup_spec :
+  forall (fuel : nat) (mem : CMem.memory) (c mc : Z) (evs : list Gen_LoopC15.hcev) (b3 : list N)
+  (bl : list (option (list N))) (p : CMem.ptr) (s r : list N) (n : Z) (file : CMem.ptr)
+  (line : Z),
+  CMemFacts.mem_ok mem ->
+  BinInt.Z.lt c C15_CTie.I31 ->
+  CMem.view mem p = s ++ 0 :: r ->
+  C15_CTie.NN s ->
+  (length s < fuel)%nat ->
+  BinInt.Z.lt (BinInt.Z.of_nat (length (s ++ 0 :: r))) C15_CTie.M64 ->
+  BinInt.Z.le Z0 n /\ BinInt.Z.lt n C15_CTie.M64 ->
+  length b3 = S (PeanoNat.Nat.min (length s) (BinInt.Z.to_nat n)) ->
+  Gen_LoopC15.src_c_cpputest_strndup_location fuel mem c mc evs (Some b3 :: bl) p n file line =
+  CMem.FOk
+  (CMem.Ptr (length mem) Z0, mem ++ [firstn (PeanoNat.Nat.min (length s) (BinInt.Z.to_nat n)) s ++ [0]],
+  C15_CTie.t_tick c, CSem.cw (Zpos 32) true (BinInt.Z.add mc (Zpos 1)),
+  (evs ++ C15_CTie.t_tick_evs c) ++
+  [Gen_LoopC15.CMalloc
+  (BinInt.Z.add (BinInt.Z.of_nat (PeanoNat.Nat.min (length s) (BinInt.Z.to_nat n))) (Zpos 1))
+  (Zpos 1)], bl).
+Proof. exact C15_CTie.strndup_spec. Qed.
+Print Assumptions C05_strndup_spec.
+
+(* --------------------------------------------------------------------------------------------------------------
+   SOURCE TIE (detector paths): MemoryLeakDetector::allocMemory / reallocMemory as translated on every run into gen/Gen_HeapC04D.v -- a request too large for the bookkeeping is refused before the allocator is asked, a refusing allocator / a refused separate record / a refusing realloc yield NULL with the block handed back and every existing record in place (the old block of a refused realloc is registered again); the link_ lemmas state that C05_Model's size arithmetic (fits / with_guard / request) is the arithmetic of the translated functions for the configuration they are translated in (guard bytes on, sizeof(MemoryLeakDetectorNode) = 64)
+   -------------------------------------------------------------------------------------------------------------- *)
+From CppUVerif Require gen.Gen_HeapC04D C04_DetTie C05_DetLink.
+Local Open Scope Z_scope.
+Theorem C05_real_cfg_valid :
+  valid_cfg C05_DetLink.real_cfg = true.
+Proof. exact C05_DetLink.real_cfg_valid. Qed.
+Print Assumptions C05_real_cfg_valid.
+
+Theorem C05_link_fits :
+  forall n : N, fits C05_DetLink.real_cfg n = BinInt.Z.leb (BinInt.Z.of_N n) C04_DetTie.max_user_size.
+Proof. exact C05_DetLink.link_fits. Qed.
+Print Assumptions C05_link_fits.
+
+Theorem C05_link_with_guard :
+  forall n : N,
+  BinInt.Z.le (BinInt.Z.of_N n) C04_DetTie.max_user_size ->
+  BinInt.Z.of_N (with_guard C05_DetLink.real_cfg n) = C04_DetTie.size_with_guard (BinInt.Z.of_N n).
+Proof. exact C05_DetLink.link_with_guard. Qed.
+Print Assumptions C05_link_with_guard.
+
+Theorem C05_link_request :
+  forall (sep : bool) (n : N),
+  BinInt.Z.le (BinInt.Z.of_N n) C04_DetTie.max_user_size ->
+  BinInt.Z.of_N (request C05_DetLink.real_cfg sep n) =
+  C04_DetTie.alloc_request (if sep then Zpos 1 else Z0) (BinInt.Z.of_N n).
+Proof. exact C05_DetLink.link_request. Qed.
+Print Assumptions C05_link_request.
+
+Theorem C05_link_oversize :
+  forall n : N, fits C05_DetLink.real_cfg n = false <-> BinInt.Z.lt C04_DetTie.max_user_size (BinInt.Z.of_N n).
+Proof. exact C05_DetLink.link_oversize. Qed.
+Print Assumptions C05_link_oversize.
+
+Theorem C05_size_with_guard_bounds :
+  forall s : Z,
+  (BinInt.Z.lt (BinInt.Z.add s (Zpos 3)) (C04_DetTie.size_with_guard s) /\
+  BinInt.Z.le (C04_DetTie.size_with_guard s) (BinInt.Z.add s (Zpos 11))) /\
+  BinInt.Z.modulo (C04_DetTie.size_with_guard s) (Zpos 8) = Z0.
+Proof. exact C04_DetTie.size_with_guard_bounds. Qed.
+Print Assumptions C05_size_with_guard_bounds.
+
+Theorem C05_src_det_sizeOfMemoryWithCorruptionInfo_spec :
+  forall (fuel : nat) (h : CHeap.heap) (evs : list Gen_HeapC04D.dev) (al nf : list Z)
+  (il : list CHeap.hptr) (rl gs : list Z) (this : CHeap.hptr) (size : Z),
+  BinInt.Z.le Z0 size /\ BinInt.Z.le size C04_DetTie.max_user_size ->
+  Gen_HeapC04D.src_det_sizeOfMemoryWithCorruptionInfo fuel h evs al nf il rl gs this size =
+  CMem.FOk (C04_DetTie.size_with_guard size, h, evs, al, nf, il, rl, gs).
+Proof. exact C04_DetTie.src_det_sizeOfMemoryWithCorruptionInfo_spec. Qed.
+Print Assumptions C05_src_det_sizeOfMemoryWithCorruptionInfo_spec.
+
+Theorem C05_src_det_sizeLeavesRoomForAccountingInformation_spec :
+  forall (fuel : nat) (h : CHeap.heap) (evs : list Gen_HeapC04D.dev) (al nf : list Z)
+  (il : list CHeap.hptr) (rl gs : list Z) (size : Z),
+  Gen_HeapC04D.src_det_sizeLeavesRoomForAccountingInformation fuel h evs al nf il rl gs size =
+  CMem.FOk (CSem.b2z (BinInt.Z.leb size C04_DetTie.max_user_size), h, evs, al, nf, il, rl, gs).
+Proof. exact C04_DetTie.src_det_sizeLeavesRoomForAccountingInformation_spec. Qed.
+Print Assumptions C05_src_det_sizeLeavesRoomForAccountingInformation_spec.
+
+Theorem C05_src_det_allocMemory_oversize :
+  forall (fuel : nat) (h : CHeap.heap) (evs : list Gen_HeapC04D.dev) (al nf : list Z)
+  (il : list CHeap.hptr) (rl gs : list Z) (this : CHeap.hptr) (allocator size file line sep : Z),
+  BinInt.Z.lt C04_DetTie.max_user_size size ->
+  Gen_HeapC04D.src_det_allocMemory fuel h evs al nf il rl gs this allocator size file line sep =
+  CMem.FOk (Z0, h, evs, al, nf, il, rl, gs).
+Proof. exact C04_DetTie.src_det_allocMemory_oversize. Qed.
+Print Assumptions C05_src_det_allocMemory_oversize.
+
+Theorem C05_src_det_allocMemory_refused :
+  forall (fuel : nat) (h : CHeap.heap) (evs : list Gen_HeapC04D.dev) (al nf : list Z)
+  (il : list CHeap.hptr) (rl gs : list Z) (this : CHeap.hptr) (allocator size file line sep : Z),
+  BinInt.Z.le Z0 size /\ BinInt.Z.le size C04_DetTie.max_user_size ->
+  Gen_HeapC04D.src_det_allocMemory fuel h evs (Z0 :: al) nf il rl gs this allocator size file line sep =
+  CMem.FOk
+  (Z0, h, evs ++ [Gen_HeapC04D.DAllocCall allocator (C04_DetTie.alloc_request sep size) Z0], al, nf, il, rl,
+  gs).
+Proof. exact C04_DetTie.src_det_allocMemory_refused. Qed.
+Print Assumptions C05_src_det_allocMemory_refused.
+
+Theorem C05_src_det_allocMemory_node_refused :
+  forall (fuel : nat) (h : CHeap.heap) (evs : list Gen_HeapC04D.dev) (o : Z) (al : list Z)
+  (r : Z) (nf : list Z) (il : list CHeap.hptr) (rl gs : list Z) (this : CHeap.hptr)
+  (allocator size file line sep : Z),
+  BinInt.Z.le Z0 size /\ BinInt.Z.le size C04_DetTie.max_user_size ->
+  o <> Z0 ->
+  CSem.z2b sep = true ->
+  r <> Z0 ->
+  Gen_HeapC04D.src_det_allocMemory fuel h evs (o :: al) (r :: nf) il rl gs this allocator size file line sep =
+  CMem.FOk
+  (Z0, h,
+  evs ++
+  [Gen_HeapC04D.DAllocCall allocator (C04_DetTie.size_with_guard size) o;
+  Gen_HeapC04D.DNodeRefused allocator; Gen_HeapC04D.DFreeCall allocator o size], al, nf, il, rl, gs).
+Proof. exact C04_DetTie.src_det_allocMemory_node_refused. Qed.
+Print Assumptions C05_src_det_allocMemory_node_refused.
+
+Theorem C05_src_det_reallocMemory_oversize :
+  forall (actual : Z -> Z) (equal_type : Z -> Z -> Z) (fuel : nat) (h : CHeap.heap)
+  (evs : list Gen_HeapC04D.dev) (al nf : list Z) (il : list CHeap.hptr) (rl gs : list Z)
+  (this : CHeap.hptr) (allocator memory size file line sep : Z),
+  BinInt.Z.lt C04_DetTie.max_user_size size ->
+  Gen_HeapC04D.src_det_reallocMemory actual equal_type fuel h evs al nf il rl gs this allocator memory size file
+  line sep = CMem.FOk (Z0, h, evs, al, nf, il, rl, gs).
+Proof. exact C04_DetTie.src_det_reallocMemory_oversize. Qed.
+Print Assumptions C05_src_det_reallocMemory_oversize.
+
+Theorem C05_src_det_reallocMemory_node_refused :
+  forall (actual : Z -> Z) (equal_type : Z -> Z -> Z) (fuel : nat) (h : CHeap.heap)
+  (evs : list Gen_HeapC04D.dev) (al : list Z) (r : Z) (nf : list Z) (il : list CHeap.hptr)
+  (rl gs : list Z) (dt : nat) (bss : list (list nat)) (d : C04_Model.det) (tc : bool)
+  (a : N) (n : C04_Model.node) (allocator size file line sep g : Z) (gs' : list Z),
+  C04_DetRep.detector_at h dt bss d tc ->
+  a < 2 ^ 64 ->
+  a <> 0 ->
+  (length (nth (C04_Model.hashN a) (C04_Model.d_tbl d) []) < fuel)%nat ->
+  BinInt.Z.le size C04_DetTie.max_user_size ->
+  fst (C04_Model.t_remove a (C04_Model.d_tbl d)) = Some n ->
+  (C04_DetTie.d_matching equal_type tc (actual (BinInt.Z.of_N (C04_Model.n_kind n))) (actual allocator) = true ->
+  gs = g :: gs') ->
+  CSem.z2b sep = true ->
+  r <> Z0 ->
+  exists (h3 : CHeap.heap) (bss3 : list (list nat)),
+  Gen_HeapC04D.src_det_reallocMemory actual equal_type fuel h evs al (r :: nf) il rl gs
+  (CHeap.HPtr dt Z0) allocator (BinInt.Z.of_N a) size file line sep =
+  CMem.FOk
+  (Z0, h3,
+  evs ++
+  C04_DetTie.corr_events actual equal_type tc
+  (C04_HeapRep.ptr_of a (nth (C04_Model.hashN a) bss []) (nth (C04_Model.hashN a) (C04_Model.d_tbl d) []))
+  n allocator Z0 g ++ [Gen_HeapC04D.DNodeRefused allocator], al, nf, il, rl,
+  C04_DetTie.corr_guards actual equal_type tc n allocator gs) /\
+  C04_DetRep.detector_at h3 dt bss3 (fst (C04_Model.d_realloc_failed d a)) tc /\
+  snd (C04_Model.d_realloc_failed d a) = false /\
+  length h3 = length h /\
+  (forall b' : nat, b' <> dt -> ~ In b' (concat bss) -> CHeap.hblock h3 b' = CHeap.hblock h b').
+Proof. exact C04_DetTie.src_det_reallocMemory_node_refused. Qed.
+Print Assumptions C05_src_det_reallocMemory_node_refused.
+
+Theorem C05_src_det_reallocMemory_failed_separate :
+  forall (actual : Z -> Z) (equal_type : Z -> Z -> Z) (fuel : nat) (h : CHeap.heap)
+  (evs : list Gen_HeapC04D.dev) (al nf : list Z) (il : list CHeap.hptr) (rl gs : list Z)
+  (dt : nat) (bss : list (list nat)) (d : C04_Model.det) (tc : bool) (a : N) (n : C04_Model.node)
+  (allocator size file line sep g : Z) (gs' : list Z),
+  C04_DetRep.detector_at h dt bss d tc ->
+  a < 2 ^ 64 ->
+  a <> 0 ->
+  (length (nth (C04_Model.hashN a) (C04_Model.d_tbl d) []) < fuel)%nat ->
+  BinInt.Z.le Z0 size /\ BinInt.Z.le size C04_DetTie.max_user_size ->
+  fst (C04_Model.t_remove a (C04_Model.d_tbl d)) = Some n ->
+  (C04_DetTie.d_matching equal_type tc (actual (BinInt.Z.of_N (C04_Model.n_kind n))) (actual allocator) = true ->
+  gs = g :: gs') ->
+  CSem.z2b sep = true ->
+  exists (h3 : CHeap.heap) (bss3 : list (list nat)),
+  Gen_HeapC04D.src_det_reallocMemory actual equal_type fuel h evs al (Z0 :: nf) il
+  (Z0 :: rl) gs (CHeap.HPtr dt Z0) allocator (BinInt.Z.of_N a) size file line sep =
+  CMem.FOk
+  (Z0, h3,
+  evs ++
+  C04_DetTie.corr_events actual equal_type tc
+  (C04_HeapRep.ptr_of a (nth (C04_Model.hashN a) bss []) (nth (C04_Model.hashN a) (C04_Model.d_tbl d) []))
+  n allocator Z0 g ++
+  [Gen_HeapC04D.DNodeAlloc allocator (CHeap.HPtr (length h) Z0);
+  Gen_HeapC04D.DRealloc (BinInt.Z.of_N a) (C04_DetTie.size_with_guard size) Z0;
+  Gen_HeapC04D.DNodeFree allocator (CHeap.HPtr (length h) Z0)], al, nf, il, rl,
+  C04_DetTie.corr_guards actual equal_type tc n allocator gs) /\
+  C04_DetRep.detector_at h3 dt bss3 (fst (C04_Model.d_realloc_failed d a)) tc /\
+  snd (C04_Model.d_realloc_failed d a) = false /\
+  length h3 = S (length h) /\
+  (forall b' : nat,
+  (b' < length h)%nat -> b' <> dt -> ~ In b' (concat bss) -> CHeap.hblock h3 b' = CHeap.hblock h b').
+Proof. exact C04_DetTie.src_det_reallocMemory_failed_separate. Qed.
+Print Assumptions C05_src_det_reallocMemory_failed_separate.
+
+Theorem C05_src_det_reallocMemory_failed_inline :
+  forall (actual : Z -> Z) (equal_type : Z -> Z -> Z) (fuel : nat) (h : CHeap.heap)
+  (evs : list Gen_HeapC04D.dev) (al nf : list Z) (il : list CHeap.hptr) (rl gs : list Z)
+  (dt : nat) (bss : list (list nat)) (d : C04_Model.det) (tc : bool) (a : N) (n : C04_Model.node)
+  (allocator size file line sep g : Z) (gs' : list Z),
+  C04_DetRep.detector_at h dt bss d tc ->
+  a < 2 ^ 64 ->
+  a <> 0 ->
+  (length (nth (C04_Model.hashN a) (C04_Model.d_tbl d) []) < fuel)%nat ->
+  BinInt.Z.le Z0 size /\ BinInt.Z.le size C04_DetTie.max_user_size ->
+  fst (C04_Model.t_remove a (C04_Model.d_tbl d)) = Some n ->
+  (C04_DetTie.d_matching equal_type tc (actual (BinInt.Z.of_N (C04_Model.n_kind n))) (actual allocator) = true ->
+  gs = g :: gs') ->
+  CSem.z2b sep = false ->
+  exists (h3 : CHeap.heap) (bss3 : list (list nat)),
+  Gen_HeapC04D.src_det_reallocMemory actual equal_type fuel h evs al nf il (Z0 :: rl) gs
+  (CHeap.HPtr dt Z0) allocator (BinInt.Z.of_N a) size file line sep =
+  CMem.FOk
+  (Z0, h3,
+  evs ++
+  C04_DetTie.corr_events actual equal_type tc
+  (C04_HeapRep.ptr_of a (nth (C04_Model.hashN a) bss []) (nth (C04_Model.hashN a) (C04_Model.d_tbl d) []))
+  n allocator Z0 g ++
+  [Gen_HeapC04D.DRealloc (BinInt.Z.of_N a) (BinInt.Z.add (C04_DetTie.size_with_guard size) (Zpos 64)) Z0],
+  al, nf, il, rl, C04_DetTie.corr_guards actual equal_type tc n allocator gs) /\
+  C04_DetRep.detector_at h3 dt bss3 (fst (C04_Model.d_realloc_failed d a)) tc /\
+  snd (C04_Model.d_realloc_failed d a) = false /\
+  length h3 = length h /\
+  (forall b' : nat, b' <> dt -> ~ In b' (concat bss) -> CHeap.hblock h3 b' = CHeap.hblock h b').
+Proof. exact C04_DetTie.src_det_reallocMemory_failed_inline. Qed.
+Print Assumptions C05_src_det_reallocMemory_failed_inline.
